@@ -6,7 +6,6 @@ import (
 	"fmt"
 	"io"
 	"math/big"
-	"sort"
 	"strconv"
 	"strings"
 
@@ -436,13 +435,4 @@ func classify(prev, nx state, v view, nodes []int, in *instance) []string {
 		out = append(out, "reorg-to-longer")
 	}
 	return out
-}
-
-func sortedKeys(m map[string]int64) []string {
-	var k []string
-	for x := range m {
-		k = append(k, x)
-	}
-	sort.Strings(k)
-	return k
 }
